@@ -132,16 +132,17 @@ func active(h, height int32) bool { return h != 0 && height >= h }
 type kind int
 
 const (
-	kTrue   kind = iota // OP_TRUE, anyone can spend
-	kP2PKH              // legacy signature
-	kP2SH               // P2SH( 1 <pub> 1 CHECKMULTISIG )
-	kP2WPKH             // native segwit v0 key hash
-	kP2WSH              // P2WSH( <pub> CHECKSIG )
-	kP2TR               // taproot key spend
-	kMulti              // bare 1-of-1 multisig
-	kCLTV               // <lock> CLTV DROP OP_TRUE
-	kCSV                // <rel> CSV DROP OP_TRUE
-	kWDrop              // P2WSH( OP_DROP OP_TRUE ): witness = [padding, script]
+	kTrue     kind = iota // OP_TRUE, anyone can spend
+	kP2PKH                // legacy signature
+	kP2SH                 // P2SH( 1 <pub> 1 CHECKMULTISIG )
+	kP2WPKH               // native segwit v0 key hash
+	kP2WSH                // P2WSH( <pub> CHECKSIG )
+	kP2TR                 // taproot key spend
+	kMulti                // bare 1-of-1 multisig
+	kCLTV                 // <lock> CLTV DROP OP_TRUE
+	kCSV                  // <rel> CSV DROP OP_TRUE
+	kWDrop                // P2WSH( OP_DROP OP_TRUE ): witness = [padding, script]
+	kP2SHWPKH             // P2SH( 0 <keyhash> ): nested segwit, the deepest wrapping the rules know
 	numKinds
 )
 
@@ -206,6 +207,8 @@ func pkScriptOf(k kind) []byte {
 	case kWDrop:
 		h := sha256.Sum256(dropScript)
 		return cat([]byte{txscript.OP_0}, push(h[:]))
+	case kP2SHWPKH:
+		return cat([]byte{txscript.OP_HASH160}, push(hash160(pkScriptOf(kP2WPKH))), []byte{txscript.OP_EQUAL})
 	case kCLTV:
 		return cat(scriptNum(cltvLock), []byte{txscript.OP_CHECKLOCKTIMEVERIFY, txscript.OP_DROP, txscript.OP_TRUE})
 	case kCSV:
@@ -377,6 +380,11 @@ func (b *builder) sign(tx *wire.MsgTx, ins []spend, prev map[wire.OutPoint]*wire
 				in.SignatureScript = []byte{txscript.OP_0, txscript.OP_VERIFY}
 				note.failsAlways = true
 			}
+			if s.bad == "emptywit" {
+				// a witness stack holding one EMPTY item: present (not nil), so it counts as witness data
+				in.Witness = wire.TxWitness{[]byte{}}
+				note.failsUnder |= fWITNESS // witness data on a non-witness program
+			}
 		case kCLTV:
 			// fails under CLTV unless the tx lock time satisfies the operand
 			if !(tx.LockTime >= cltvLock && tx.LockTime < txscript.LockTimeThreshold && s.seq != wire.MaxTxInSequenceNum) {
@@ -468,6 +476,24 @@ func (b *builder) sign(tx *wire.MsgTx, ins []spend, prev map[wire.OutPoint]*wire
 			}
 		case kWDrop:
 			in.Witness = wire.TxWitness{make([]byte, s.pad), dropScript}
+		case kP2SHWPKH:
+			sub := pkScriptOf(kP2PKH)
+			sig, err := txscript.RawTxInWitnessSignature(tx, sh, i, s.c.amount, sub, txscript.SigHashAll, theKey)
+			if err != nil {
+				panic(err)
+			}
+			in.SignatureScript = push(pkScriptOf(kP2WPKH))
+			switch s.bad {
+			case "sig":
+				sig[10] ^= 0x01
+				note.failsUnder |= fWITNESS // without segwit the redeem script 0 <20 bytes> just leaves a true value
+			case "nowit":
+				sig = nil
+				note.failsUnder |= fWITNESS
+			}
+			if sig != nil {
+				in.Witness = wire.TxWitness{sig, thePub}
+			}
 		case kP2TR:
 			sig, err := txscript.RawTxInTaprootSignature(tx, sh, i, s.c.amount, pk, nil, txscript.SigHashDefault, theKey)
 			if err != nil {
